@@ -322,7 +322,12 @@ def install_objects(E):
                        VOpt(none, E_.fresh_val('exc_traceback'))])
     E.builtins[('import', 'sys')] = VNamespace('sys', dict(version_info=VTuple([VInt(3), VInt(12), VInt(1)]),
                                                            exc_info=VStub('sys.exc_info', _exc_info)))
-    E.builtins[('import', 'queue')] = VNamespace('queue', dict(Queue=VClass('queue.Queue', ctor=lambda E_, a, k: Obj('TQueue', dict(maxsize=k.get('maxsize', a[0] if a else VInt(0)))))))
+    def _tq(order):
+        return lambda E_, a, k: Obj('TQueue', dict(maxsize=k.get('maxsize', a[0] if a else VInt(0)), order=order))
+    E.builtins[('import', 'queue')] = VNamespace('queue', dict(
+        Queue=VClass('queue.Queue', ctor=_tq('fifo')), LifoQueue=VClass('queue.LifoQueue', ctor=_tq('lifo')),
+        PriorityQueue=VClass('queue.PriorityQueue', ctor=_tq('priority')),
+        SimpleQueue=VClass('queue.SimpleQueue', ctor=_tq('fifo'))))
 
 
 def _ev_write(E, ev, val):
